@@ -602,7 +602,9 @@ class _FragmentCompiler:
                     emitter.append("process.clk_edge = False")
                     emitter._level -= 1
 
-                if domain.rst is not None:
+                # The data output of a synchronous memory read port is not affected by the reset of
+                # its domain (the netlist has no such reset either).
+                if domain.rst is not None and not isinstance(fragment, MemoryInstance):
                     rhs = _RHSValueCompiler(self.state, emitter, mode="curr")
                     rst = rhs(domain.rst)
                     rst = f"(1 & {rst})"
